@@ -266,6 +266,10 @@ def plan(ctx):
         c = dc.curved_case(ctx.rng, mats[i % len(mats)])
         c["tag"] = "curved"
         cases.append(c)
+    for i in range(2 * len(mats) if ctx.quick() else 10 * len(mats)):
+        c = dc.short_life_case(ctx.rng, mats[i % len(mats)], ("last", "lump")[(i // len(mats)) % 2])
+        c["tag"] = "short-life"
+        cases.append(c)
     for i in range(len(mats) if ctx.quick() else 6 * len(mats)):
         c = dc.bracket_case(ctx.rng, mats[i % len(mats)])
         c["tag"] = "day-brackets"
